@@ -25,7 +25,7 @@ ASSUMPTIONS = ['RDKit SMILES reading, ring perception (RingInfo), aromaticity fl
                'molecules only contain Pt/Ru as metals and no non-metal with Z > 19, so "M" is unambiguous',
                'total embeddings < 10000 (the code caps RDKit matches there)']
 
-WEIGHTS = dict(gas=5, alkene=1, aromatic=2, radical=2, adsorbate=3, special=1, oov=1)
+WEIGHTS = dict(gas=5, alkene=1, aromatic=2, radical=2, adsorbate=3, special=1, oov=1, ions=3, polycyclic=3)
 _m = {}
 
 
@@ -169,7 +169,7 @@ def check_pair(ctx, case):
 # -- bounded exhaustive ---------------------------------------------------------------------------------
 SMALL_MOLS = ['C', 'CC', 'C=C', 'C#C', 'CO', 'C=O', 'O', 'OO', '[CH3]', '[CH2]', 'C[CH2]', 'C[O]', 'CC(=O)[O-]', '[NH4+]',
               'C1CC1', 'C1CO1', 'C1=CC1', 'c1ccccc1', 'C[Pt]', '[Pt]C[Pt]', 'C=C[Pt]', 'O=C=O', 'CC=O', 'C[NH3+]', 'N', 'CN',
-              '[H][H]', 'OC[Pt]', 'C1CC2CC12', '[CH]=C']
+              '[H][H]', 'OC[Pt]', 'C1CC2CC12', '[CH]=C', 'C1CC2CCC12', 'C[CH2+]', '[CH2-]C', 'C1CC2CCCC12', 'C[O-]']
 EX_SYMS = ['C', 'O', 'H', '$', '&', 'X', 'Pt', 'M', 'N']
 EX_SUF = [None, '+', '-', '.', ':', '+.', '-.', '?']
 EX_PRE = [None, 'aromatic', 'nonaromatic', 'ringatom', 'nonringatom']
@@ -224,6 +224,6 @@ def check_any(ctx, case):
 
 
 FAMILIES = [
-    Family('pairs', check_any, strategy=lambda tier: pair_case(), n=(4000, 300000)),
+    Family('pairs', check_any, strategy=lambda tier: pair_case(), n=(8000, 300000)),
     Family('bounded-exhaustive', check_any, enumerate=enum_small, stride=(25, 1)),
 ]
